@@ -20,6 +20,10 @@ CLAIMS = {
    text='Partial (memory-safety skeleton of the buffer limit): explicit TOC/frame-count byte stores are at indices proved inside the buffer (pointer offset as ghost integer, trace partitioning on the packet code); every length opus_encode_native hands to a writer of the caller buffer is proved <= out_data_bytes by relational difference tracking through the IMIN/IMAX clamps; the range coder gets exactly max_data_bytes-1 bytes at data+1 and callers pass 1..1276; the multistream encoder clamps the per-stream budget to its scratch packet, passes exactly the remaining space and advances data/tot_size together; the 1275-byte scratch copies match the caps. Exact CBR size, BITRATE_MAX fill, CVBR average and redundancy placement inside the coder buffer are NOT decided.',
    note=TRUST + 'Assumes no signed-integer overflow (UB) when clipping stored values to the variable type. One unchecked repacketizer result in the multistream encoder is a frozen stated-belief exception (no failing input known).',
    technique='interval-set abstract interpretation with tracked differences (out_data_bytes - len), min/max relation back-propagation and trace partitioning (product CFG)'),
+ 'C06': dict(category='other',
+   text='Partial (memory-safety and agreement clauses of the parser): every packet-byte read of opus_packet_parse_impl / parse_size / opus_packet_get_nb_frames happens with the length variable proved >= the bytes needed and never overstating what is left (linear ghost len+consumed-initial <= 0 with symbolic cancellation); the frame count is proved in [1,48] and all subscripts of size[]/frames[] inside the declared 48 entries; explicit sizes are validated before the pointer advances and implicit sizes checked <= 1275 before narrowing; the frame-count helper agrees with the parser per TOC code and both enforce the same 120 ms; out-parameters are stored after the last failure return; internal callers pass 48-entry arrays. Equality of the accepted set with RFC 6716 R1-R7 and of the reported offsets is NOT decided.',
+   note=TRUST + 'Assumes no signed overflow when clipping stored values.',
+   technique='interval-set abstract interpretation with a linear ghost (consumed bytes) and product refinement (framesize*count <= 5760) + dominance facts + decision-table agreement of sibling functions'),
  'C07': dict(category='other',
    text='Partial: a rejected cat leaves observable contents unchanged (commit-after-validate, slot index < 48 from the 120 ms check); every output store of out_range_impl is reached only after a tot_size-vs-maxlen check returning OPUS_BUFFER_TOO_SMALL since the last growth of tot_size (typestate product over the CFG with interval pruning); pad/unpad guards and copy-before-cat; no repacketizer/parser/extension error is dropped. Byte-for-byte frame preservation, canonical unpad and the 1277*n bound are NOT decided.',
    note=TRUST + 'One growth of tot_size is a frozen, reasoned exception (anticipated by the dominating padding check).',
